@@ -89,7 +89,7 @@ def h(t, part):
     for i, n in enumerate(names):
         if i < npos or n in required or (not part.get('minimal') and t.bool()):
             if n == 'namespace':
-                given[n] = ['/other', None, ''][t.choice(3)] if i >= npos else '/other'
+                given[n] = ['/other', None, '', '/'][t.choice(4)] if i >= npos else ['/other', '/'][npos % 2]
             elif n == 'callback':
                 given[n] = [None, record][t.choice(2)]
             elif n == 'data':
